@@ -109,7 +109,7 @@ class Case(object):
             c0.read()
             r0 = c0.make_reactor()
             req = float(r0.req_dz)
-        L = max(min(round(n * req, 6), 4.0), 2e-5)
+        L = max(min(round(n * req, 6), 4.0), 0.01)
         core["length"] = L
         scale_lengths(self.spec, L)
         return L
